@@ -14,7 +14,8 @@ import SlVerif.Props.C01
     sharesOf h sid β vx msg      the shares it outputs when it accepts       — a function of a_tilde only
 
   Proved for EVERY oracle, state and message:
-    accept_iff, verdict                     the receiver accepts iff `mu_hash = checkDigest`; what it outputs
+    accept_iff, verdict                     the receiver accepts iff `mu_hash = checkDigest` and eta is canonically encoded
+    eta_noncanonical_rejected               a non-canonical encoding of the check value (x + q) ⇒ Err          [unconditional]
     honest_accepted                         OT-extension variant, all inputs / tapes / seed sets (via C01.ext, C03.main)
     mu_hash_tamper_rejected                 any change of `mu_hash` alone (every bit flip, overwrite) ⇒ Err   [unconditional]
     accepted_implies_relation_if_atilde_untouched
@@ -40,14 +41,28 @@ variable (h : Query → Id Bytes)
 /-- **C02, the verdict**: what `RVOLEReceiver::process` returns, for every message -/
 theorem verdict (st : RecvState) (msg : Msg2) :
     receiverProcess (m := Id) h st msg =
-      if msg.muHash = checkDigest h st.sid st.beta st.vx msg then .ok (sharesOf h st.sid st.beta st.vx msg)
-      else .error checkFailed := by
+      if msg.muHash = checkDigest h st.sid st.beta st.vx msg ∧ etaCanonical msg.eta = true
+      then .ok (sharesOf h st.sid st.beta st.vx msg) else .error checkFailed := by
   rw [receiverProcess_id, receiverCore_eq]
 
-/-- **C02, acceptance criterion**: the receiver accepts iff the digest of its own mu' values is the `mu_hash` field -/
+/-- **C02, acceptance criterion**: the receiver accepts iff the digest of its own mu' values is the `mu_hash` field and
+    every `eta[k]` is canonically encoded (big-endian value below the group order) -/
 theorem accept_iff (st : RecvState) (msg : Msg2) :
-    Accepted (receiverProcess (m := Id) h st msg) ↔ msg.muHash = checkDigest h st.sid st.beta st.vx msg := by
+    Accepted (receiverProcess (m := Id) h st msg)
+      ↔ msg.muHash = checkDigest h st.sid st.beta st.vx msg ∧ etaCanonical msg.eta = true := by
   rw [receiverProcess_id]; exact accepted_iff h _ _ _ _
+
+/-- **C02, the check value has ONE accepted encoding** (unconditional): a message in which some `eta[k]` is not the
+    canonical encoding of a scalar (big-endian value ≥ q, e.g. `x + q` for the honest `x`) is rejected, whatever the rest
+    of the message is. -/
+theorem eta_noncanonical_rejected (st : RecvState) (msg : Msg2) (e : Bytes) (he : e ∈ msg.eta)
+    (hge : secpQ ≤ beToNat e) :
+    receiverProcess (m := Id) h st msg = .error checkFailed := by
+  rw [receiverProcess_id]
+  apply rejected_of_noncanonical
+  unfold etaCanonical
+  rw [List.all_eq_false]
+  exact ⟨e, he, by simp [Nat.not_lt.mpr hge]⟩
 
 /-- **C02, first sentence** (OT-extension variant): an honest round-two message is always accepted — every oracle,
     session id, input vector, pair of tapes and seed sets in the all-but-one relation. -/
@@ -72,7 +87,7 @@ theorem mu_hash_tamper_rejected (st : RecvState) (msg msg' : Msg2)
   apply rejected_of_ne
   have : checkDigest h st.sid st.beta st.vx msg' = checkDigest h st.sid st.beta st.vx msg := by
     unfold checkDigest; rw [hA, hE]
-  rw [this, ← hacc]
+  rw [this, ← hacc.1]
   exact hH
 
 /-- the same for the bit-flip operator of the driver on a well-formed message: a flip inside `mu_hash` -/
@@ -160,8 +175,10 @@ theorem relation_intact_if_atilde_untouched (sid : Bytes) (encKeys decKeys : Lis
     different DECODED check value in some column, the receiver has at least one choice bit 1, and the mu hash separates
     the two lists of mu' values, then `msg'` is rejected.
     Beyond the property's wording: `hbit` (for β = 0 the receiver never reads `eta`: every verifier of this protocol
-    accepts), `hval` (the receiver reduces `eta` modulo q: the two encodings `x` and `x + q` of one scalar are the same
-    check value — only possible for x < 2^256 − q), `hsep` (collision-freeness of merlin on one pair of transcripts). -/
+    accepts; probability 2^-512, run as a directed excluded point by the stream), `hsep` (collision-freeness of merlin on
+    one pair of transcripts).  `hval` says the check value changed as a scalar; for canonically encoded `eta` that is the
+    same as the bytes changing, and a non-canonical `eta` (x + q) is rejected unconditionally
+    (`eta_noncanonical_rejected`; before the repair of the receivers it was accepted — finding D10). -/
 theorem eta_tamper_rejected_partial (st : RecvState) (msg msg' : Msg2)
     (hacc : Accepted (receiverProcess (m := Id) h st msg))
     (hA : msg'.aTilde = msg.aTilde) (hH : msg'.muHash = msg.muHash)
@@ -175,7 +192,7 @@ theorem eta_tamper_rejected_partial (st : RecvState) (msg msg' : Msg2)
   rw [receiverProcess_id]
   apply rejected_of_ne
   intro e
-  rw [hH, hacc, checkDigest_eq, checkDigest_eq] at e
+  rw [hH, hacc.1, checkDigest_eq, checkDigest_eq] at e
   have hl := hsep e.symm
   unfold recvMuList at hl
   rw [hA, muReceiver_eq, muReceiver_eq] at hl
@@ -202,7 +219,7 @@ theorem selective_failure_sound (sid beta : Bytes) (v0 v1 vx : List (List Bytes)
   have hl := (adv_lists_eq_iff h sid beta v0 v1 vx a tape devs g (OTRel_of_bytes beta v0 v1 vx hOT)).mpr
     (fun j hj k _ d hd => Or.inl (hright j hj d hd))
   rw [hl, advCore_id]
-  rfl
+  exact ⟨rfl, etaFinal_canonical _ _ _⟩
 
 /-- **C02, selective failure** (partial).  Under the OT relation: the re-derived deviating message is accepted IFF every
     guess of the receiver's choice bit in a deviating row is right.
@@ -225,7 +242,7 @@ theorem selective_failure_partial (sid beta : Bytes) (v0 v1 vx : List (List Byte
     rw [accepted_iff, checkDigest_eq] at hacc
     have hmu : (advCore (m := Id) h sid g v0 v1 a tape devs).2.1.muHash
         = muHashOf (m := Id) h sid (advMuList h sid v0 v1 a tape devs) := by rw [advCore_id]; rfl
-    have hl := hsep (by rw [← hacc, hmu])
+    have hl := hsep (by rw [← hacc.1, hmu])
     have := (adv_lists_eq_iff h sid beta v0 v1 vx a tape devs g (OTRel_of_bytes beta v0 v1 vx hOT)).mp hl
       j hj 0 rho_pos d hd
     exact this.resolve_right (hvis j hj d hd 0 rho_pos)
